@@ -699,6 +699,15 @@ var perturbations = []perturbation{
 		}
 		return false
 	}},
+	{"negative-balance", true, func(c *Ctx, cfg *genesis.GenesisConfig) bool {
+		// two fresh user entries of -v and +v of one declared token: every sum the validators compute is unchanged
+		z := cfg.TokenConfig.Tokens[c.R.Intn(len(cfg.TokenConfig.Tokens))].TokenStandard
+		v := big.NewInt(1 + int64(c.R.Intn(1000)))
+		cfg.GenesisBlocks.Blocks = append(cfg.GenesisBlocks.Blocks,
+			&genesis.GenesisBlockConfig{Address: randAddr(c, 0), BalanceList: map[types.ZenonTokenStandard]*big.Int{z: new(big.Int).Neg(v)}},
+			&genesis.GenesisBlockConfig{Address: randAddr(c, 0), BalanceList: map[types.ZenonTokenStandard]*big.Int{z: v}})
+		return true
+	}},
 	{"supply-above-max", true, func(c *Ctx, cfg *genesis.GenesisConfig) bool {
 		t := cfg.TokenConfig.Tokens[c.R.Intn(len(cfg.TokenConfig.Tokens))]
 		if t.TotalSupply.Sign() <= 0 {
